@@ -75,6 +75,34 @@ mut("worker_no_except", HP, "            except Exception as exc:\n             
 mut("monitor_no_queue_close", HP, "                # Now close all the queues\n                queue.close()\n                log_queue.close()", "                # Now close all the queues\n                any_none = False", ["C19"])
 mut("worker_counts_records_on_failure", HP, "            except Exception as exc:\n                n_recs = 0", "            except Exception as exc:\n                n_recs = 1", ["C19"])
 
+# ----------------------------------------------------------------------------------
+# benign variants: changes under which the named properties STILL HOLD. A check that
+# flags one of these demands more than its property states (false alarm).
+# ----------------------------------------------------------------------------------
+B = []
+def ben(name, file, old, new, props, count=1):
+    B.append(dict(name=name, file=file, old=old, new=new, props=props, count=count, benign=True))
+
+ben("refill_from_reversed_batch", CM, "        rand_batch[:] = np.random.rand(2048)", "        rand_batch[:] = np.random.rand(2048)[::-1]", ["C06", "C05", "C12"])
+ben("refill_two_halves", CM, "        rand_batch[:] = np.random.rand(2048)", "        rand_batch[:1024] = np.random.rand(1024)\n        rand_batch[1024:] = np.random.rand(1024)", ["C06", "C05"])
+ben("linear_plain_count_min_update", CM,
+    "        count = cms[row, buckets[row]]\n        if count < new_count:\n            cms[row, buckets[row]] = new_count\n\n\n@njit(\n    types.void(\n        uint32[:, :],\n        uint64[:],\n        uint64[:],\n        uint64,\n        uint64,\n        uint32,\n        types.Bytes(types.uint8, 1, \"C\"),\n        uint64,",
+    "        count = cms[row, buckets[row]]\n        if count < uint_maxval - value:\n            cms[row, buckets[row]] = count + value\n        else:\n            cms[row, buckets[row]] = uint_maxval\n\n\n@njit(\n    types.void(\n        uint32[:, :],\n        uint64[:],\n        uint64[:],\n        uint64,\n        uint64,\n        uint32,\n        types.Bytes(types.uint8, 1, \"C\"),\n        uint64,",
+    ["C01", "C09", "C10", "C15", "C18"])
+ben("hh_replace_on_tie", HH, "            if value > lhh_count[row, col]:", "            if value >= lhh_count[row, col]:", ["C03", "C04", "C13", "C18", "C10"])
+ben("log_merge_tie_rounds_up", CM, "                if delta / (vhigher - vlower) <= 0.5:", "                if delta / (vhigher - vlower) < 0.5:", ["C09", "C18", "C10"], count=2)
+ben("log_add_counts_only_applied_units_at_ceiling", CM,
+    "    # Track total number of elements added to the sketch\n    n_added_records[0] += uint64(value)\n\n    # This gets min_count AND updates buckets\n    min_count = _query_log8(cms, buckets, width, depth, uint_maxval, key)\n",
+    "    # This gets min_count AND updates buckets\n    min_count = _query_log8(cms, buckets, width, depth, uint_maxval, key)\n    if min_count < uint_maxval:\n        n_added_records[0] += uint64(value)\n",
+    ["C05", "C06", "C12", "C09"])
+ben("hh_query_ties_sorted_by_key", HH, "        return self.candidate_set.most_common(k)", "        return sorted(self.candidate_set.items(), key=lambda kv: (-kv[1], kv[0]))[:k]", ["C13", "C03", "C04", "C16"])
+ben("save_extra_member_hll", HL, "            filename, args=np.array([self.p, self.seed], np.uint64), hll=self.registers", "            filename, args=np.array([self.p, self.seed], np.uint64), hll=self.registers, fmt=np.array([1])", ["C10", "C20", "C02"])
+ben("death_reported_as_runtime_error", HP, "                # Now close all the queues\n                queue.close()\n                log_queue.close()", "                # Now close all the queues\n                queue.close()\n                log_queue.close()\n                raise RuntimeError(msg)", ["C19", "C08"])
+ben("del_sleeps_shorter", HL, "                    sleep(0.25)", "                    sleep(0.05)", ["C16", "C02"], count=2)
+ben("worker_logs_less", HP, "            end = datetime.now()\n            speed = n_records / (end - start).total_seconds()\n            log_queue.put(\n                {\n                    \"level\": \"DEBUG\",", "            end = datetime.now()\n            speed = 0.0\n            log_queue.put(\n                {\n                    \"level\": \"DEBUG\",", ["C08", "C19"])
+ben("monitor_polls_faster", HP, "        sleep(1)\n        any_none = False", "        sleep(0.2)\n        any_none = False", ["C08", "C19"])
+
+
 def apply(m, root):
     p = os.path.join(root, m["file"])
     s = open(p).read()
@@ -93,7 +121,8 @@ def main():
     for o in opts:
         if o.startswith("--props="): only = o.split("=")[1].split(",")
         if o.startswith("--runs="): runs = o.split("=")[1]
-    sel = [m for m in M if not args or m["name"] in args]
+    pool = B if "--benign" in opts else M
+    sel = [m for m in pool if not args or m["name"] in args]
     report_path = os.path.join(HERE, "mutants_report.json")
     report = json.load(open(report_path)) if os.path.exists(report_path) else {}
     for m in sel:
@@ -111,8 +140,12 @@ def main():
                 lines = [l for l in p.stdout.splitlines() if l.startswith(("VIOLATION", "  invariant", "KNOWN"))]
                 res = {"rc": p.returncode, "wall_s": round(time.time() - t0, 1), "lines": lines[:3]}
                 if p.returncode == 2: res["stderr"] = p.stderr[-600:]
+                if m.get("benign"):
+                    res["benign"] = True
+                    res["false_alarm"] = p.returncode != 0
                 report[f"{m['name']}|{prop}"] = res
-                print(f"{m['name']:42s} {prop} rc={p.returncode} {res['wall_s']}s {lines[1].strip() if len(lines)>1 else ''}", flush=True)
+                tag = ("FALSE-ALARM" if p.returncode != 0 else "ok") if m.get("benign") else ""
+                print(f"{m['name']:42s} {prop} rc={p.returncode} {res['wall_s']}s {tag} {lines[1].strip() if len(lines)>1 else ''}", flush=True)
                 shutil.rmtree(ev, ignore_errors=True)
         finally:
             shutil.rmtree(root, ignore_errors=True)
